@@ -23,6 +23,15 @@ THEOREMS = [
     "Vinegar.C09.foreign_then_pkt",
     "Vinegar.C09.foreign_then_silence",
     "Vinegar.C09.foreign_then_end",
+    "Vinegar.C09.foreign_noninterference",
+    "Vinegar.C09.foreign_noninterference_view",
+    "Vinegar.C09.foreign_noninterference_outcome",
+    "Vinegar.C09.foreign_noninterference_needs_side_condition",
+    "Vinegar.C09.foreign_cpu_matters",
+    "Vinegar.C09.foreign_c02_agree",
+    "Vinegar.C09.foreign_c01_agree",
+    "Vinegar.Tftp.awaitAck_sim",
+    "Vinegar.Tftp.awaitAck_silence_as_delay",
     "Vinegar.C02.c02Check_runTransfer",
     "Vinegar.C01.c01Check_runTransfer",
 ]
